@@ -21,7 +21,16 @@ import (
 
 type Rng struct{ s uint64 }
 
-func NewRng(seed uint64) *Rng { return &Rng{s: seed*0x9E3779B97F4A7C15 + 0x1234567} }
+// NewRng seeds a splitmix64 generator.  The seed is hashed first: the raw state advances by a
+// constant per draw, so seeds s and s+1 would otherwise give the same stream shifted by one.
+func NewRng(seed uint64) *Rng {
+	z := seed + 0x9E3779B97F4A7C15
+	z = (z ^ (z >> 30)) * 0xBF58476D1CE4E5B9
+	z = (z ^ (z >> 27)) * 0x94D049BB133111EB
+	z = z ^ (z >> 31)
+	z = (z ^ 0xD6E8FEB86659FD93) * 0xFF51AFD7ED558CCD
+	return &Rng{s: z ^ (z >> 33)}
+}
 func (r *Rng) U64() uint64 {
 	r.s += 0x9E3779B97F4A7C15
 	z := r.s
